@@ -31,6 +31,15 @@ fn tok_marker(text: &str) -> String {
     format!("tok!({:?})", text)
 }
 
+/// A string literal written in a template and a string interpolated into it are the same token: both are modelled as
+/// `Tok::S(value)` (so that moving a literal out of a template into a `#variable` does not change the modelled tokens).
+fn str_lit_value(text: &str) -> Option<String> {
+    if !(text.starts_with('"') || text.starts_with("r\"") || text.starts_with("r#")) {
+        return None;
+    }
+    syn::parse_str::<syn::LitStr>(text).ok().map(|l| l.value())
+}
+
 enum Piece {
     Lit(String),
     Interp(String),
@@ -137,7 +146,10 @@ impl ExecGen {
             match p {
                 Piece::Lit(t) => {
                     self.lits += 1;
-                    write!(s, "vx_ts_lit(&mut {}, {}); ", target, tok_marker(t)).unwrap();
+                    match str_lit_value(t) {
+                        Some(v) => write!(s, "vx_ts_str(&mut {}, vx_s({:?})); ", target, v).unwrap(),
+                        None => write!(s, "vx_ts_lit(&mut {}, {}); ", target, tok_marker(t)).unwrap(),
+                    }
                 }
                 Piece::Interp(x) => {
                     self.interps += 1;
@@ -232,7 +244,10 @@ fn spec_gen(pieces: &[Piece], mirror: bool, s: &mut String) -> Result<(), String
         s.push_str("Seq::<Tok>::empty()");
         for p in pieces {
             match p {
-                Piece::Lit(t) => write!(s, ".push(Tok::T({}))", tok_marker(t)).unwrap(),
+                Piece::Lit(t) => match str_lit_value(t) {
+                    Some(v) => write!(s, ".push(Tok::S({:?}@))", v).unwrap(),
+                    None => write!(s, ".push(Tok::T({}))", tok_marker(t)).unwrap(),
+                },
                 Piece::Group(d, inner) => {
                     let mut g = String::new();
                     spec_gen(inner, true, &mut g)?;
@@ -250,7 +265,10 @@ fn spec_gen(pieces: &[Piece], mirror: bool, s: &mut String) -> Result<(), String
         match p {
             Piece::Lit(t) => {
                 let r = run.get_or_insert_with(|| "Seq::<Tok>::empty()".to_string());
-                write!(r, ".push(Tok::T({}))", tok_marker(t)).unwrap();
+                match str_lit_value(t) {
+                    Some(v) => write!(r, ".push(Tok::S({:?}@))", v).unwrap(),
+                    None => write!(r, ".push(Tok::T({}))", tok_marker(t)).unwrap(),
+                }
             }
             Piece::Group(d, inner) => {
                 let mut g = String::new();
